@@ -297,6 +297,66 @@ def check(ctx, case, reqs, pend):
                                 name, cell, i, j, got, exp), d, cls="C18-%s-value%s" % (name, "-weighted" if weighted else ""))
 
 
+def minmax_trailing(ctx):
+    """min / max with empty cells AFTER the last occupied one (explicit shapes larger than the data, or simply no row in the
+    last categories), the extreme value sitting in the LAST row of its cell: facts increasing (max) and decreasing (min) in
+    row order; float / int / datetime facts, both policies; per-cell brute force"""
+    from catii import xcube
+    rng = np.random.default_rng(ctx.seed + 181)
+    fixed = [([np.array([0, 1, 1, 1]), np.array([1, 0, 0, 0])], (2, 2))]
+    for _ in range(ctx.n(30)):
+        k = int(rng.integers(1, 3))
+        N = int(rng.integers(3, 14))
+        ext = [int(rng.integers(2, 4)) for _ in range(k)]
+        dims = [rng.integers(0, max(1, e - int(rng.integers(0, 2))), size=N) for e in ext]
+        shape = tuple(e + int(rng.integers(0, 3)) for e in ext)
+        fixed.append((dims, shape))
+    for dims, shape in fixed:
+        N = len(dims[0])
+        for kind in ("float", "int", "datetime"):
+            for opn, base in (("max", np.arange(N)), ("min", np.arange(N)[::-1].copy())):
+                for ign in (True, False):
+                    ok = np.ones(N, dtype=bool)
+                    if N > 3 and rng.random() < 0.5:
+                        ok[int(rng.integers(0, N - 1))] = False
+                    if kind == "float":
+                        vals = base.astype(float)
+                        arg = vals.copy()
+                        arg[~ok] = np.nan
+                        null = (0, False)
+                    elif kind == "int":
+                        vals = base.astype(np.int64)
+                        arg = (vals.copy(), ok.copy())
+                        null = (0, False)
+                    else:
+                        vals = np.datetime64("2021-03-01") + base.astype("timedelta64[D]")
+                        arg = (vals.copy(), ok.copy())
+                        null = (np.datetime64("NaT"), False)
+                    desc = {"minmax_trailing": opn, "kind": kind, "dims": [d.tolist() for d in dims], "shape": list(shape),
+                            "ignore": ign, "valid": ok.tolist()}
+                    ctx.case(desc, nontrivial=True)
+                    ctx.hit("minmax_trailing:" + kind)
+                    try:
+                        ov, okout = getattr(xcube(dims, interacting_shape=shape), opn)(arg, ignore_missing=ign, return_missing_as=null)
+                    except Exception as e:
+                        ctx.oracle_fail("%s/%s raised %s: %s" % (opn, kind, type(e).__name__, str(e)[:80]), desc, cls="C18-minmax-raises")
+                        continue
+                    for cell in np.ndindex(*shape):
+                        rows = np.nonzero(np.all([d == c for d, c in zip(dims, cell)], axis=0))[0]
+                        xs = vals[rows][ok[rows]]
+                        missing = len(xs) == 0 or (not ign and not ok[rows].all())
+                        if bool(okout[cell]) == missing:
+                            ctx.oracle_fail("%s/%s cell %s reported %s but has %d valid of %d rows" % (
+                                opn, kind, cell, "valid" if okout[cell] else "missing", len(xs), len(rows)), desc, cls="C18-minmax-missing-rule")
+                            break
+                        if not missing:
+                            exp = xs.max() if opn == "max" else xs.min()
+                            if ov[cell] != exp:
+                                ctx.oracle_fail("%s/%s cell %s = %r, the rows of the cell give %r" % (opn, kind, cell, ov[cell], exp), desc,
+                                                cls="C18-minmax-value")
+                                break
+
+
 def pooled_statistics(ctx):
     """the same statistics with the cube's worker pool engaged (a dimension with several columns gives several sub-cubes
     filled by different workers through the SAME xfunc object): each cell must still hold the statistic of its own rows.
@@ -390,6 +450,7 @@ def run(ctx):
         case["readonly"] = it % 3 == 1
         check(ctx, case, reqs, pend)
     pooled_statistics(ctx)
+    minmax_trailing(ctx)
     if ctx.oracle_only:
         return
     from fractions import Fraction
